@@ -32,3 +32,13 @@ Record num_attrs := {
   na_max_str_len : ext;
   na_min_bound : option Z; na_max_bound : option Z
 }.
+
+(** a number model class as the generated tables present it: default attributes and the four
+    validation functions translated from its source (value / None instantiations) *)
+Record int_type := mk_int_type {
+  it_attrs : num_attrs;
+  it_vn : num_attrs -> Z -> bool;        (* validate_native(cls, z) *)
+  it_vn_none : num_attrs -> bool;        (* validate_native(cls, None) *)
+  it_vs : num_attrs -> Z -> bool;        (* validate_string(cls, s), as a function of len(s) *)
+  it_vs_none : num_attrs -> bool         (* validate_string(cls, None) *)
+}.
